@@ -189,7 +189,7 @@ def check_csv(case, ctx):
                 ctx.fail("C11/csv/count/" + axis, case, "row %d input %d: count %r, model %r" % (k, i, g, e))
             g2 = float(rows2[k][len(row) - n_in + i])
             e2 = math.fsum(abs(o - f) for o, f in cs) / len(cs) if cs else float("nan")
-            if not cmpx.close(g2, e2 if math.isnan(e2) else cmpx.fmt_sig(e2, 6), 2e-6):
+            if not cmpx.printed_ok(g2, e2, 6, rel=2e-6):
                 ctx.fail("C11/csv/mae/" + axis, case, "row %d input %d: mae %r, model %r" % (k, i, g2, e2))
         # row label
         if axis in ("time", "year", "month", "day", "week"):
